@@ -23,9 +23,9 @@ func init() {
 // idx, flags).  scriptSig and witness are those of input Idx of Tx; scriptPubKey and amount are
 // Spent[Idx].
 type Case struct {
-	Kind  string     `json:"kind"`  // spend type (generator label; used by class predicates)
-	Muts  []string   `json:"muts"`  // mutations applied (generator labels)
-	Tx    string     `json:"tx"`    // hex, BIP144 form when a witness is present
+	Kind  string     `json:"kind"` // spend type (generator label; used by class predicates)
+	Muts  []string   `json:"muts"` // mutations applied (generator labels)
+	Tx    string     `json:"tx"`   // hex, BIP144 form when a witness is present
 	Idx   int        `json:"idx"`
 	Spent []SpentOut `json:"spent"` // one per input
 	Flags uint32     `json:"flags"`
